@@ -563,3 +563,47 @@ func VerifC15Route() {
 	verifAssert(c2 == c1 || c1 == gone, "remove-moves-only-keys-of-the-removed-destination")
 	verifCover("end")
 }
+
+// VerifC15RouteUpdate: changing a destination's address (UpdateDestination with "addr", the endpoint
+// answering so that the reconnect succeeds) changes the (host, instance) pair the ring is built from: the
+// route's hasher must be rebuilt from the destinations as they are now, and agree with a ring built from
+// scratch over the same destinations on the owner of the key.
+func VerifC15RouteUpdate() {
+	addrs := []string{"127.0.0.1:2103:a", "127.0.0.1:2103:b", "127.0.0.2:2103"}
+	m, _ := matcher.New("", "", "", "", "", "")
+	var ds []*dest.Destination
+	for _, a := range addrs {
+		d, err := dest.New("chroute", m, a, "/tmp/verif-spool", false, false, 1e9, 1e9, 10, 100, 10, 1000, 10, 1e9, 1e6, 1e6)
+		if err != nil {
+			panic(err)
+		}
+		ds = append(ds, d)
+	}
+	ri, err := NewConsistentHashing("chroute", m, append([]*dest.Destination{}, ds...))
+	verifAssert(err == nil, "route-created")
+	r := ri.(*ConsistentHashing)
+	verifSettle()
+	verifC15RouteCheck(r, ds, "new")
+	var key []byte
+	if p := verifParam("key"); p != "" {
+		key = []byte(p)
+	} else {
+		key = verifNameBytes(2)
+	}
+	j := verifChoice("update", len(ds))
+	inst := verifParam("inst")
+	verifEndpointUp(true)
+	na := verifEndpointAddr()
+	if inst != "" {
+		na += ":" + inst
+	}
+	err = r.UpdateDestination(j, map[string]string{"addr": na})
+	verifAssert(err == nil, "update-ok")
+	verifSettle()
+	verifAssert(ds[j].Addr == verifEndpointAddr() && ds[j].Instance == inst, "destination-took-the-new-address")
+	verifC15RouteCheck(r, ds, "update")
+	conf := r.config.Load().(consistentHashingConfig)
+	fresh := NewConsistentHasher(conf.Dests())
+	verifAssert(conf.Hasher.GetDestinationIndex(key) == fresh.GetDestinationIndex(key), "update:owner-as-in-a-ring-built-from-scratch")
+	verifCover("end")
+}
